@@ -22,13 +22,13 @@ def run(rep, tier):
     parts = xh.write_module("hC19_parts", H.parts_source())
     n = int(nloc)
     targets = [f"{parts}.check_split_{a}{b}" for a in range(n) for b in range(n)]
-    targets += [f"{MOD}.{f}" for f in ("check_introspection_equals_sdl", "check_introspection_failures", "check_malformed_introspection_data", "check_headers_env", "twin_introspection_valid_reached")]
+    targets += [f"{MOD}.{f}" for f in ("check_introspection_equals_sdl", "check_introspection_failures", "check_introspection_status_symbolic", "check_malformed_introspection_data", "check_headers_env", "twin_introspection_valid_reached")]
     res = xh.run_targets(targets, timeout=600 if tier == "quick" else 3000, env_extra=env)
     xh.fold(rep, parts, [r for r in res if r.target.startswith(parts)])
     xh.fold(rep, MOD, [r for r in res if r.target.startswith(MOD)])
     rep.coverage.update({
         "evaluations": len(res), "distinct_nontrivial": len(res) - 1, "exhaustive": all(r.status in ("confirmed", "counterexample") for r in res),
-        "rule": f"every assignment of 6 schema definitions to {nloc} files (mixed .graphql/.graphqls/.gql, sub-directories) generated through the real pipeline and compared, as sets of class definitions per module plus the client module text, with the single-file source; SDL vs introspected source (stub endpoint executing the real introspection query); real introspect_remote_schema under 7 boundary status codes x JSON-ok x 12 body classes x InvalidURL x verify flag must raise IntrospectionError unless the response is a valid one, and must post the given headers / verify flag; $ENV header substitution",
+        "rule": f"every assignment of 6 schema definitions to {nloc} files (mixed .graphql/.graphqls/.gql, sub-directories) generated through the real pipeline and compared, as sets of class definitions per module plus the client module text, with the single-file source; SDL vs introspected source (stub endpoint executing the real introspection query); real introspect_remote_schema with the status code as a symbolic int 100..599 (valid body; rendering of the code in the message stubbed) and under 7 boundary status codes x JSON-ok x 12 body classes x InvalidURL x verify flag must raise IntrospectionError unless the response is a valid one, and must post the given headers / verify flag; $ENV header substitution",
         "bounds": {"definitions": 6, "files": int(nloc), "body_classes": len(H.BODIES)},
         "results": [{"target": r.target.rsplit('.', 1)[-1], "status": r.status, "wall_s": round(r.wall, 1)} for r in res],
     })
